@@ -19,8 +19,8 @@ LEVEL = "exploration"
 RULE = (
     "one run = a random directory tree (depth <= 3, <= 3 entries per directory; *.sql, *.SQL, *.txt, *.sql.j2) with "
     ".sqlfluffignore / .sqlfluff ignore_paths / pyproject.toml ignore_paths at random levels (patterns from a closed "
-    "gitignore grammar without negation), queried 6-10 times inside ONE long-lived node (shared config-file cache)"
-    " per working directory and once more per query in a fresh node: target x spelling (relative, ./rel, rel/, a/../a, absolute, "
+    "gitignore grammar without negation), queried 6-10 times inside ONE long-lived node (shared config-file cache) per working directory, or - when the project root carries no ignore file - ONE node that "
+    "chdir()s between sibling working directories and once more per query in a fresh node: target x spelling (relative, ./rel, rel/, a/../a, absolute, "
     "'.') x cwd (root or a sub-directory) x ignore_files on/off x extension list x directory-listing order (seeded "
     "permutation of every scandir/listdir). Oracle: a reference ignore model written from the statement (pathspec "
     "trusted for pattern matching) + metamorphic equality across spellings, listing orders and history. evaluations "
@@ -44,12 +44,16 @@ ASSUMPTIONS = [
 WARM = "rules,ansi"
 
 FILE_NAMES = ["x.sql", "y.sql", "z.SQL", "n.txt", "t.sql.j2", "anchored.sql", "name.sql", "w.sql"]
-DIR_NAMES = ["a", "b", "d1", "sub", "dd"]
+DIR_NAMES = ["a", "a1", "b", "d1", "sub", "sub2", "dd", "models", "models_v2"]
 
 
 def gen_tree(rng: Rng) -> dict:
     files: dict[str, dict] = {}
     dirs = ["proj"]
+    # chdir mode: ONE long-lived process moves between sibling working
+    # directories; the project root then carries no ignore file, so the start
+    # cwd that paths_from_path bound at import cannot matter
+    chdir_mode = rng.chance(0.4)
 
     def fill(d: str, depth: int) -> None:
         for fn in rng.sample(FILE_NAMES, rng.randint(0, 3)):
@@ -64,7 +68,9 @@ def gen_tree(rng: Rng) -> dict:
     # ignore files
     ign: dict[str, dict] = {}
     for d in dirs:
-        if rng.chance(0.4 if d != "proj" else 0.5):
+        if chdir_mode and d == "proj":
+            continue
+        if rng.chance((0.55 if chdir_mode and d.count("/") == 1 else 0.4) if d != "proj" else 0.5):
             below_dirs = [x[len(d) + 1 :] for x in dirs if x.startswith(d + "/")]
             below_files = [x[len(d) + 1 :] for x in files if x.startswith(d + "/")]
             pats = []
@@ -88,7 +94,7 @@ def gen_tree(rng: Rng) -> dict:
                     pats.append(rng.choice(below_files))
             if not pats:
                 continue
-            how = rng.choice([".sqlfluffignore", ".sqlfluffignore", ".sqlfluff", "pyproject.toml"])
+            how = rng.choice([".sqlfluffignore", ".sqlfluffignore", ".sqlfluffignore", ".sqlfluff", "pyproject.toml"])
             if d == "proj" and how == ".sqlfluff":
                 how = ".sqlfluffignore"
             ign[d] = {"how": how, "patterns": pats}
@@ -100,7 +106,7 @@ def gen_tree(rng: Rng) -> dict:
                 body = "[tool.sqlfluff.core]\nignore_paths = [%s]\n" % ", ".join('"%s"' % p for p in pats)
             files[d + "/" + how] = {"b64": b64(body.encode()), "mode": 0o644}
     files.setdefault("proj/.sqlfluff", {"b64": b64(b"[sqlfluff]\ndialect = ansi\n"), "mode": 0o644})
-    return {"files": files, "dirs": ["home/u"] + dirs, "ignore": ign}
+    return {"files": files, "dirs": ["home/u"] + dirs, "ignore": ign, "chdir_mode": chdir_mode}
 
 
 def tree_of(world: dict) -> dict:
@@ -126,7 +132,10 @@ def gen_queries(rng: Rng, world: dict) -> list[dict]:
                 a = os.path.dirname(a)
             return True
 
-        cwd = rng.choice([d for d in dirs if d.count("/") <= 1 and clean_above(d)] or ["proj"])
+        if world.get("chdir_mode"):
+            cwd = rng.choice([d for d in dirs if d.count("/") == 1] or ["proj"])
+        else:
+            cwd = rng.choice([d for d in dirs if d.count("/") <= 1 and clean_above(d)] or ["proj"])
         under = [d for d in dirs if d == cwd or d.startswith(cwd + "/")]
         if rng.chance(0.75) or not files:
             target = rng.choice(under)
@@ -254,10 +263,14 @@ def run_one(ctx: Any, seed: int, tier: str, replay: Optional[dict] = None) -> di
             for qi, q in enumerate(queries):
                 # one long-lived node per working directory (a real process binds
                 # its start cwd into paths_from_path at import time)
-                if q["cwd"] not in hists:
-                    hists[q["cwd"]] = z.node({"name": "hist%d" % len(hists), "root": root, "cwd": q["cwd"], "seed": seed,
-                                              "knobs": {"listing": "shuffle", "journal_reads": False}})
-                hist = hists[q["cwd"]]
+                hkey = "*" if world.get("chdir_mode") else q["cwd"]
+                if hkey not in hists:
+                    hists[hkey] = z.node({"name": "hist%d" % len(hists), "root": root, "cwd": q["cwd"], "seed": seed,
+                                          "knobs": {"listing": "shuffle", "journal_reads": False}})
+                hist = hists[hkey]
+                if world.get("chdir_mode"):
+                    hist.call("env", kind="chdir", cwd=q["cwd"])
+                    faults["chdir"] += 1
                 path = q["spelling"]
                 if path == "$ABS":
                     path = os.path.join(root, q["target"])
